@@ -12,7 +12,7 @@ impl_kiter!(['a, 'p, P: kstr::Pattern<'p>] kstr::RSplit<'a, 'p, P>, &'a str);
 const RULE: &str = "cases = (string, delimiter as &str or char, history); oracle = str::split / rsplit / split_terminator (rsplit_terminator = std rsplit without a final empty piece), pieces compared by address+length at every step, iterators run 2 steps past exhaustion; remainder() after every step = the not-yet-split part of the input (from the start of the next piece to the end of the input for forward iteration, up to the end of the next piece for reverse iteration, the span of the remaining pieces under mixed histories, \"\" when exhausted); split().rev() vs rsplit and rsplit().rev() vs split; for char delimiters (double-ended in std) every front/back interleaving of split and rsplit; non-trivial = >= 2 pieces and (an empty piece, i.e. adjacent/leading/trailing delimiters, or a self-overlapping delimiter occurrence, or the empty delimiter over multi-byte text); distinct by (string,delimiter,history)";
 
 #[derive(Serialize, Deserialize, Debug, Clone, Hash)]
-struct Case {
+pub struct Case {
     s: String,
     delim: String,
     /// use the `char` pattern kind (delim must be exactly one char)
@@ -168,7 +168,7 @@ fn mixed(s: &str, c: char, hist: u32) -> Result<(), String> {
     Ok(())
 }
 
-fn run_case(c: &Case) -> Result<(), String> {
+pub fn run_case(c: &Case) -> Result<(), String> {
     let s = c.s.as_str();
     if c.as_char {
         let ch = c.delim.chars().next().ok_or("as_char needs a char")?;
@@ -279,7 +279,7 @@ fn explore(ctx: &mut Ctx) {
     });
 }
 
-fn fold_case((s, dl, as_char, hist): &(Vec<usize>, Vec<usize>, bool, Option<u32>)) -> Case {
+pub fn fold_case((s, dl, as_char, hist): &(Vec<usize>, Vec<usize>, bool, Option<u32>)) -> Case {
     const SYM: [&str; 4] = ["a", "b", "é", ","];
     let s: String = s.iter().map(|&i| SYM[i]).collect();
     let mut delim: String = dl.iter().map(|&i| SYM[i]).collect();
